@@ -27,7 +27,7 @@ def curve(i):
 def render(f):
     if f['t'] == 'none':
         return None
-    el = [('c%d' % c) if n else c - 1 for c, n in zip(f['cols'], f['named'])]
+    el = [('c%d' % c) if n == 1 else (c - 4 if n == 2 else c - 1) for c, n in zip(f['cols'], f['named'])]
     return el[0] if f['t'] == 'scalar' else el
 
 
@@ -95,7 +95,8 @@ def main(chk, replay=None):
         elif exp['k'] == 'refused':
             lab = None if y is None else 'accepted'
         elif y is None:
-            lab = obs
+            # positions counted from the end are an "other form": refusing them is acceptable
+            lab = None if (2 in scf['named'] or 2 in req['named']) else obs
         else:
             lab = check(x, y, exp['terms'])
             if lab is None and not neg and sum(1 for t in exp['terms'] if t) >= 1:
